@@ -18,6 +18,7 @@ from ECAgent.Batching import ScoreMode
 BIG = 2 ** 70
 VALS = {'quick': [-BIG, 0, 1, BIG], 'thorough': [-BIG, -3, 0, 1, BIG, 2 * BIG]}
 FVALS = [-3.0, 0.0, 0.5, 1.0]
+FBIG = [1e9 + 1, 1e9 + 2, 1e9 + 6]        # large magnitude, small spread: exposes cancellation in one-pass formulas
 SHAPES = [('1', {'a': [1]}, 1), ('2', {'a': [1, 2]}, 2), ('3', {'a': [1, 2, 3]}, 3), ('2x2', {'a': [1, 2], 'b': [5, 6]}, 4)]
 
 META = {
@@ -25,10 +26,12 @@ META = {
             'with <= 6 cells; schedule leg: 30 selected tables x every SchedPool outcome; distinct_nontrivial counts '
             'distinct (shape, mode, table, best index) observations',
     'alphabet': {'values': {'quick': ['-2^70', 0, 1, '2^70'], 'thorough': ['-2^70', -3, 0, 1, '2^70', '2^71'],
-                            'float leg': FVALS},
+                            'float leg': FVALS, 'big float leg': FBIG},
                  'shapes (combinations)': [s[0] for s in SHAPES], 'repetitions': '1..3 with combinations x repetitions '
                  '<= 6 (>= 2 for the variance modes)', 'modes': [m.name for m in ScoreMode],
-                 'schedules': 'all outcomes for n <= 4 combinations, p in 2,3'},
+                 'schedules': 'all outcomes for n <= 4 combinations, p in 2,3',
+                 'call sequences': 'three consecutive searches in one process on the real multiprocessing.Pool with the '
+                                   'score table changed in between, process counts (2,2,2),(2,3,2),(1,2,1),(3,3,1)'},
     'bounds': {'quick': '4 values', 'thorough': '6 values incl. two distinct magnitudes above sys.maxsize'},
     'assumptions': ['a score must equal the exact rational aggregate if representable, else its correctly rounded '
                     'float (statistics.mean / variance return floats for non-integral results)',
@@ -141,6 +144,45 @@ def run_search(case, cache=None):
     return (first, repr(results))
 
 
+GLOBAL_TABLE = {}
+
+
+def global_score(model):
+    """Reads a module-level table: a worker process forked before the table changed would answer from the old one."""
+    return GLOBAL_TABLE[(model.a, model.b)]
+
+
+def pool_reuse_case(case):
+    """A sequence of searches in one process with the REAL multiprocessing.Pool; the module-level score table changes
+    between the calls.  Every search must reflect the table current at its call, for every process count."""
+    reset_library()
+    params = {'a': [1, 2, 3]}
+    outs = []
+    for step, (table, procs) in enumerate(case['sequence']):
+        GLOBAL_TABLE.clear()
+        GLOBAL_TABLE.update({(a, 0): v for a, v in zip(params['a'], table)})
+        best, results = Batching.grid_search(GModel, {'a': list(params['a'])}, global_score, processes=procs,
+                                             mode=ScoreMode(case['mode']))
+        scores = [r['score'] for r in results]
+        if [r['records'] for r in results] != [[v] for v in table] or scores != list(table):
+            raise Violation(f'search {step} of the sequence {case["sequence"]} (processes={procs}) reports scores that '
+                            f'do not belong to its own evaluation', expected=list(table), observed=scores)
+        is_min = case['mode'] % 2 == 0
+        first = scores.index(min(scores) if is_min else max(scores))
+        if best != results[first]:
+            raise Violation(f'search {step} of the sequence (processes={procs}) returned the wrong best',
+                            expected=first, observed=best)
+        outs.append(tuple(scores))
+    return tuple(outs)
+
+
+def pool_reuse_cases():
+    tables = [[5, 1, 9], [1, 9, 5], [9, 5, 1]]
+    for mode in (0, 1):
+        for procs_seq in ((2, 2, 2), (2, 3, 2), (1, 2, 1), (3, 3, 1)):
+            yield {'leg': 'pool_reuse', 'mode': mode, 'sequence': [[t, p] for t, p in zip(tables, procs_seq)]}
+
+
 def shape_reps():
     out = []
     for name, params, nc in SHAPES:
@@ -167,6 +209,12 @@ def serial_cases(tier):
                 if mode >= 6 and reps < 2:
                     continue
                 yield {'leg': 'serial_float', 'shape': name, 'reps': reps, 'mode': mode, 'table': list(flat),
+                       'float': True}
+        for flat in itertools.product(FBIG, repeat=nc * reps):
+            for mode in range(8):
+                if mode >= 6 and reps < 2:
+                    continue
+                yield {'leg': 'serial_bigfloat', 'shape': name, 'reps': reps, 'mode': mode, 'table': list(flat),
                        'float': True}
 
 
@@ -206,6 +254,15 @@ def chunk_fn(ctx, chunk):
     cache = sched.WorkerCache()
     serial_memo = {}
     for case in chunk:
+        if case['leg'] == 'pool_reuse':
+            ctx.traces += 1
+            ctx.states += 1
+            ctx.transitions += len(case['sequence'])
+            try:
+                ctx.outcome(hbfs._guard(pool_reuse_case, case))
+            except Violation as v:
+                ctx.report(case, v)
+            continue
         ctx.traces += 1
         ctx.states += 1
         ctx.transitions += len(case['table'])
@@ -231,9 +288,14 @@ def chunk_fn(ctx, chunk):
 def run(ctx):
     ser = list(serial_cases(ctx.tier))
     sc = list(sched_cases())
+    pr = list(pool_reuse_cases())
     allc = ser + sc
     size = max(1, len(allc) // (ctx.procs * 4))
     par.pmap(ctx, chunk_fn, [allc[i:i + size] for i in range(0, len(allc), size)], procs=ctx.procs)
+    if not ctx.violations:
+        # real pools fork: run these from the parent, one after the other (deterministic: staleness, not timing)
+        chunk_fn(ctx, pr)
+        ctx.leg('pool_reuse_real_pool', sequences=len(pr))
     ctx.leg('serial', searches=len(ser))
     ctx.leg('schedule', searches=len(sc))
     for c in (ser[len(ser) // 3], ser[-1], sc[len(sc) // 2]):
@@ -241,6 +303,9 @@ def run(ctx):
 
 
 def replay(case):
+    if case['leg'] == 'pool_reuse':
+        hbfs._guard(pool_reuse_case, case)
+        return
     out = hbfs._guard(run_search, case, None)
     if case['leg'] == 'schedule':
         ser = hbfs._guard(run_search, dict(case, procs=1, outcome=None), None)
